@@ -246,8 +246,11 @@ class _FeedSem(Semantics):
         if isinstance(node, ast.Assign):
             if id(node) in self.dirty_stores:
                 return frozenset(state | {self.dirty_stores[id(node)]})
-            if id(node) in self.restores:
-                gone = {norm(t).split('.', 1)[1] for t in node.targets if norm(t).startswith('self.')}
+            # a store of the object's OWN value (no local in it) - in bound() itself or in a private helper the executor runs in place, whose
+            # context parameter it has replaced by `self` (`_unbind(engine)`: engine._active_config = engine._config)
+            own = not any(isinstance(x, ast.Name) and isinstance(x.ctx, ast.Load) and x.id != 'self' for x in ast.walk(node.value))
+            if id(node) in self.restores or own:
+                gone = {norm(t).split('.', 1)[1] for t in node.targets if isinstance(t, ast.Attribute) and norm(t.value) == 'self'}
                 return frozenset(state - gone)
         return state
 
